@@ -5,6 +5,8 @@ V = os.path.dirname(os.path.dirname(os.path.abspath(__file__)))
 rows = []
 for f in sorted(glob.glob(os.path.join(V, 'seeded', '*', 'meta.json'))):
     m = json.load(open(f))
+    if m.get('status') == 'regression-of-fix':
+        continue
     cb = m['caught_by']
     if cb.lower().startswith('from the start') or cb.lower().startswith('caught from') or cb.lower().startswith('c11 k2') or cb.lower().startswith('caught by'):
         first = 'caught'
